@@ -472,6 +472,9 @@ func runNoShare(r *core.Run) {
 					key := fmt.Sprintf("%s captures %s", fnLabel(fn), name)
 					if why, ok := auditedShared[name]; ok {
 						r.Except(key, st.Pos(), why)
+					} else if isNulOnlyGlobal(r, g) {
+						// the same buffer under another name: recognised by what it is (a []byte literal holding only the terminator)
+						r.Except(key, st.Pos(), auditedShared["parse.nullBuffer"])
 					} else {
 						r.Fail(key, st.Pos(), "constructor stores a reference to package-level memory into the new instance: instances share it")
 					}
